@@ -6,6 +6,7 @@
     * every gapless adjacency of a fused scaffold is an input adjacency (`fused_adjacent`).
 -/
 import AgpTpf.Proofs.C07ChainC
+import AgpTpf.Proofs.C07Leftover
 import AgpTpf.Proofs.C09Split
 import AgpTpf.Proofs.C11Extra
 namespace AgpTpf.C07
@@ -89,17 +90,13 @@ theorem fused_adjacent (input : List Scaffold) (N0 : Nat) (g : Gap) (b : Build)
     have part : ∀ pr ∈ adjPairs e.1.rows, IsInputAdj input (facingEnds pr.1 pr.2) := by
       rintro ⟨a, c⟩ hp
       exact isInputAdj_of input sc hsc a c (hadj _ hp) _ (SameAdj.refl _)
-    have seamCase : ∀ built, ∀ pr ∈ (match gapBeforeLeftover b.joinGap built e.2 with
-          | some _ => ([] : List (Fragment × Fragment))
-          | none => seam built e.1.rows), IsInputAdj input (facingEnds pr.1 pr.2) := by
-      intro built pr hp
-      cases hg : gapBeforeLeftover b.joinGap built e.2 with
-      | some g' => rw [hg] at hp; cases hp
-      | none =>
-        rw [hg] at hp
-        simp only at hp
+    have seamCase : ∀ built, built ≠ [] → ∀ pr ∈ (if gapsBeforeLeftover b.joinGap built e.2 = [] then seam built e.1.rows
+          else ([] : List (Fragment × Fragment))), IsInputAdj input (facingEnds pr.1 pr.2) := by
+      intro built hbne pr hp
+      by_cases hg : gapsBeforeLeftover b.joinGap built e.2 = []
+      · rw [if_pos hg] at hp
         rw [hc.jg] at hg
-        obtain ⟨prev, last, hpred, hlast, hface⟩ := (gapBeforeLeftover_none_iff g built e.2).mp hg
+        obtain ⟨prev, last, hpred, hlast, hface⟩ := (gapsBeforeLeftover_nil_iff g built hbne e.2).mp hg
         obtain ⟨a, c⟩ := pr
         obtain ⟨h1, h2⟩ := (seam_mem _ _ _ _).mp hp
         have ea : last = a := by
@@ -112,18 +109,13 @@ theorem fused_adjacent (input : List Scaffold) (N0 : Nat) (g : Gap) (b : Build)
         refine isInputAdj_of input sc hsc prev c hin _ ?_
         have : facingEnds a c = facingEnds prev c := by simp [facingEnds, hl]
         rw [this]; exact SameAdj.refl _
-    refine ⟨fun pr hp => ?_, fun built _ hb pr hp => ?_⟩
-    · rw [C01.adjPairs_appendRows] at hp
-      simp only [List.mem_append] at hp
-      rcases hp with (hp | hp) | hp
-      · cases hp
-      · exact seamCase [] pr hp
-      · exact part pr hp
-    · rw [C01.adjPairs_appendRows] at hp
-      simp only [List.mem_append] at hp
-      rcases hp with (hp | hp) | hp
-      · exact hb pr hp
-      · exact seamCase built pr hp
-      · exact part pr hp
+      · rw [if_neg hg] at hp; cases hp
+    refine ⟨part, fun built hbne hb pr hp => ?_⟩
+    rw [adjPairs_leftover_add] at hp
+    simp only [List.mem_append] at hp
+    rcases hp with (hp | hp) | hp
+    · exact hb pr hp
+    · exact seamCase built hbne pr hp
+    · exact part pr hp
 
 end AgpTpf.C07
